@@ -228,9 +228,32 @@ def _sim(kinds, coef, k0, style, depth, named, multi):
         for a in attrs:
             sim.add(a)
     env.COUNTS["reached"] += 1
+    before = [(type(a).__name__, getattr(a, "name", None)) for a in attrs]
     try:
         if multi == 0:
             inp = hs.to_proto(sim)
+            # exporting must not change the Sim: a second export is identical, and a Sim extended afterwards
+            # (add-methods) still gets distinct names for its unnamed analyses
+            if hs.to_proto(sim) != inp:
+                return _fail("second export of the same Sim differs")
+            if [(type(a).__name__, getattr(a, "name", None)) for a in sim.attrs] != before:
+                return _fail("export modified the Sim's attributes")
+            if style == 2:
+                sim.op()
+                sim.tran(tstop=1)
+                names = [getattr(a, a.WhichOneof("an")).analysis_name for a in hs.to_proto(sim).an]
+                if len(set(names)) != len(names) or "" in names:
+                    return _fail(f"analysis names after extending the Sim: {names}")
+                del sim.attrs[-2:]
+        elif multi == 2 and any(e[0] == "an" and e[2] is None for e in exps):
+            # a second Sim re-using this Sim's (unnamed) analysis objects behind an unnamed Op
+            shared = [a for a, e in zip(attrs, exps) if e[0] == "an"]
+            other = hs.Sim(tb=tb, attrs=[hs.Op()] + shared)
+            inps = hs.to_proto([sim, other])
+            inp = inps[0]
+            names = [getattr(a, a.WhichOneof("an")).analysis_name for a in inps[1].an]
+            if len(set(names)) != len(names) or "" in names:
+                return _fail(f"a Sim sharing analysis objects got names {names}")
         else:
             other = hs.Sim(tb=tb if multi == 1 else _tb(1, 1).__class__ and _other_tb(), attrs=[hs.Op()])
             inps = hs.to_proto([sim, other])
